@@ -40,6 +40,11 @@ impl Script {
                     true => OP_0.to_string(),
                     false => 0.to_string(),
                 },
+                // A push of no data is the byte 00, which is OP_0 (as hex text it would be the empty token)
+                ScriptBit::Push(bytes) if bytes.is_empty() => match extended {
+                    true => OP_0.to_string(),
+                    false => 0.to_string(),
+                },
                 ScriptBit::Push(bytes) => match extended {
                     true => format!("OP_PUSH {} {}", bytes.len(), hex::encode(bytes)),
                     false => hex::encode(bytes),
